@@ -93,6 +93,10 @@ def install(interp):
     @reg(builtins.all)
     def _all(it, args, kwargs):
         (v,) = args
+        from .interp import LazyGen
+
+        if isinstance(v, LazyGen):
+            return Sym(v.quantify(True), TBool)
         items = it.iterate_concrete(v, what="all()")
         ts = []
         for x in items:
@@ -107,6 +111,10 @@ def install(interp):
     @reg(builtins.any)
     def _any(it, args, kwargs):
         (v,) = args
+        from .interp import LazyGen
+
+        if isinstance(v, LazyGen):
+            return Sym(v.quantify(False), TBool)
         items = it.iterate_concrete(v, what="any()")
         ts = []
         for x in items:
@@ -250,6 +258,20 @@ def install(interp):
             elif c:
                 acc = x
         return acc
+
+    import itertools as _itertools
+
+    def _pairwise(it, args, kwargs):
+        (v,) = args
+        from .interp import LazySeq
+
+        if isinstance(v, (Sym, SymList)) and isinstance(v.ty, TSeq) and it.concrete_length(v) is None:
+            n = z3.Length(v.t)
+            return LazySeq(z3.If(n > 0, n - 1, 0), lambda i: (it.wrap(v.t[i], v.ty.elem), it.wrap(v.t[i + 1], v.ty.elem)))
+        items = it.iterate_concrete(v, what="pairwise")
+        return list(zip(items, items[1:]))
+
+    H[id(_itertools.pairwise)] = _pairwise
 
     import operator as _op
 
